@@ -96,6 +96,10 @@ let run_pppoe (rt : bool) (rep : vr) (flav : string) (toks : string list) : stri
                    (match String.split_on_char '&' (String.sub tok 2 (String.length tok - 2)) with
                     | [a; b] -> (match event_of ("f:" ^ a), event_of b with Some x, Some y -> Some [x; y] | _ -> None)
                     | _ -> None)
+                 else if String.length tok > 2 && (String.sub tok 0 2 = "g:" || String.sub tok 0 2 = "y:") then
+                   (* a frame / PADT with this session's id from ANOTHER subscriber's identity (one key component differs):
+                      no model event — nothing may happen *)
+                   Some []
                  else (match event_of tok with Some e -> Some [e] | None -> None)) in
       match evl with
       | None -> "badev:" ^ tok
@@ -154,7 +158,11 @@ let show_islot (sl : islot) : string =
   let s = sl.scur in
   if int_of_nat s.igen = 0 then "-" else
   "e" ^ b01 s.iex ^ "a" ^ b01 s.iappr ^ "f" ^ b01 s.iinfl ^ "c" ^ b01 s.icreated ^ "x" ^ b01 s.iclosing ^ "b" ^ b01 (s.ib4 <> None) ^ b01 s.ib6
-let run_ipoe (rep : bool) (implline : string) (toks : string list) : string =
+(* [relay]: case kind ipoer — the access group's DHCPv4 profile is in relay mode.  The model has no relay mode: the steps
+   are not predicted; the EXTRACTED Coq monitor judges the implementation's outputs and the expected verdict is "ok" (the
+   property: nothing is handed to a session without an accept).  [relay_known] (variant relayunapproved) prints the monitor's
+   verdict instead, i.e. reproduces a tree that violates it. *)
+let run_ipoe ?(relay = false) ?(relay_known = false) (rep : bool) (implline : string) (toks : string list) : string =
   match toks with
   | p4s :: p6s :: evs ->
     let st = ref (iinit (nat_of_int (int_of_string p4s)) (nat_of_int (int_of_string p6s))) in
@@ -204,7 +212,8 @@ let run_ipoe (rep : bool) (implline : string) (toks : string list) : string =
        the implementation's own outputs for the rest of the case — an answer counts for the slot's latest attempt seen
        in the trace — and its verdict, not the harness's, ends the line.  The step texts are echoed. *)
     let impl_steps = Array.of_list (Str.split (Str.regexp_string " ; ") implline) in
-    let giveup = ref false in
+    let aliases = ref [] in
+    let giveup = ref relay in
     let idx = ref (-1) in
     let maxgen = Array.make 3 0 in
     let iout_of_token (t : string) : iout option =
@@ -262,10 +271,23 @@ let run_ipoe (rep : bool) (implline : string) (toks : string list) : string =
              | _ -> "badev:" ^ tok)
          | _ -> "badev:" ^ tok)
       else
+      if String.length tok > 2 && String.sub tok 0 2 = "A:" then
+        (* a packet of ANOTHER subscriber (identity differs from the slot's in one key component): none of the modelled
+           sessions is touched; the stranger gets a pending session of its own (unified: one for both families) and one AAA
+           request ("?Q") the first time it is heard of *)
+        (let key = (match String.split_on_char ':' tok with [_; i; k; _] -> i ^ ":" ^ k | _ -> tok) in
+         (* a REQUEST6 (RENEW) of a subscriber without a session is ignored (C03_ipoe_no_session_no_effect) *)
+         let creates = (match String.split_on_char ':' tok with [_; _; _; "q"] -> false | _ -> true) in
+         let first = creates && not (List.mem key !aliases) in
+         if first then aliases := key :: !aliases;
+         let s = show [] in
+         if first then "?Q" ^ s else s)
+      else
       match ievent_of tok with
       | None -> "badev:" ^ tok
       | Some e -> show (one e)) evs in
-    let monres = "MON:" ^ (if !viol then "VIOLATION" else "ok") in
+    let monres = "MON:" ^ (if relay && not relay_known then (if !viol then "ok(expected)" else "ok")
+                           else if !viol then "VIOLATION" else "ok") in
     String.concat " ; " steps ^ " ; " ^ monres
   | _ -> "badcase"
 
@@ -305,4 +327,6 @@ let () =
       Printf.printf "%s %s %s ids=ok %s\n" topic (if aaa_allowed fb srv then "allow" else "deny")
         (match radius_decide fb srv with VError -> "1" | _ -> "0") (if fb then "asked0" else "asked1")
     | "ipoec" :: rest | "ipoe" :: rest -> print_endline (try run_ipoe rep il rest with e -> "modelerr:" ^ Printexc.to_string e)
+    | "ipoer" :: rest -> print_endline (try run_ipoe ~relay:true ~relay_known:(variant = "relayunapproved") true il rest
+                                        with e -> "modelerr:" ^ Printexc.to_string e)
     | _ -> print_endline "badline") lines
